@@ -95,6 +95,7 @@ def run_c17(ck):
         "statement of the clauses in coq/Props/ColorProps.v",
     ]
     errs = vlib.run_gen("color")
+    vlib.fallback_obligations(ck, ("GenColor",))
     harness, herr = vlib.build_harness()
     if harness is None:
         ck.oblige("build Go harness against the tree under test", False, herr)
